@@ -65,9 +65,30 @@ class Built:
         w = None if weights is None else np.array(weights, dtype=float)
         self.cls = case["cls"]
         self.kin = None
+        self.wrapper = None
         with warnings.catch_warnings():
             warnings.simplefilter("ignore")
-            if self.cls == "DdtHist":
+            if case.get("via", "class") == "wrapper":
+                from hierarc.Likelihood.LensLikelihood.base_lens_likelihood import LensLikelihoodBase
+                kw = dict(ddt_samples=s, ddt_weights=w, nbins_hist=case["nbins"])
+                zl, zs_ = 0.5, 2.0
+                if self.cls == "DdtHist":
+                    r = case["rule"]
+                    kw["binning_method"] = None if r == "binned" else (case["factor"] if r == "scalar" else r)
+                else:
+                    kw.update(kde_kernel=case["kernel"], bandwidth=case["bandwidth"])
+                if self.cls == "DdtHistKin":
+                    k = case["kin"]
+                    zl, zs_ = k["z_lens"], k["z_source"]
+                    kw.update(sigma_v_measurement=k["sigma_v"], j_model=k["j_model"], error_cov_measurement=np.array(k["cov_meas"]),
+                              error_cov_j_sqrt=np.array(k["cov_j_sqrt"]))
+                    self.kin = KIN(k["z_lens"], k["z_source"], k["sigma_v"], k["j_model"], np.array(k["cov_meas"]),
+                                   np.array(k["cov_j_sqrt"]), normalized=normalized)
+                    self.dd = k["dd"]
+                    self.scaling = None if k["kin_scaling"] is None else np.array(k["kin_scaling"])
+                self.wrapper = LensLikelihoodBase(zl, zs_, likelihood_type=self.cls, normalized=normalized, **kw)
+                self.obj = self.wrapper
+            elif self.cls == "DdtHist":
                 r = case["rule"]
                 bm = None if r == "binned" else (case["factor"] if r == "scalar" else r)
                 self.obj = H(0.5, 2.0, s, ddt_weights=w, nbins_hist=case["nbins"],
@@ -94,6 +115,9 @@ class Built:
     def joint(self, x):
         with warnings.catch_warnings():
             warnings.simplefilter("ignore")
+            if self.wrapper is not None:
+                r = self.wrapper.log_likelihood(x, getattr(self, "dd", None), kin_scaling=getattr(self, "scaling", None))
+                return float(np.asarray(r).reshape(-1)[0])
             if self.cls == "DdtHistKin":
                 return float(self.obj.log_likelihood(x, self.dd, kin_scaling=self.scaling))
             r = self.obj.log_likelihood(x)
@@ -106,7 +130,7 @@ class Built:
         return self.joint(x)
 
     def fvec(self, xs):
-        if self.cls == "DdtHist":
+        if self.cls == "DdtHist" and self.wrapper is None:
             with warnings.catch_warnings():
                 warnings.simplefilter("ignore")
                 return np.asarray(self.obj.log_likelihood(np.asarray(xs, dtype=float)), dtype=float)
@@ -211,7 +235,9 @@ def finish_case(rng, cls, samples, weights, skind, wkind, **over):
     case = {"cls": cls, "samples": samples, "weights": weights, "skind": skind, "wkind": wkind,
             "nbins": rng.choice([1, 2, 3, 3, 5, 5, 10, 10, 20, 20, 50, 100, 200]),
             "normalized": rng.random() < 0.5,
-            "rule": "binned", "factor": 1.0, "kernel": "gaussian", "bandwidth": 20.0, "kin": None}
+            "rule": "binned", "factor": 1.0, "kernel": "gaussian", "bandwidth": 20.0, "kin": None,
+            # constructed directly, or through the generic entry point LensLikelihoodBase (as a lens sample does)
+            "via": rng.choice(["class", "class", "wrapper"])}
     if cls == "DdtHist":
         case["rule"] = rng.choice(["binned", "binned", "binned", "scott", "silverman", "scalar"])
         case["factor"] = rng.choice([rng.uniform(0.05, 1.5), 0.5, 1.0])
@@ -232,7 +258,8 @@ def finish_case(rng, cls, samples, weights, skind, wkind, **over):
     perm = list(range(m))
     rng.shuffle(perm)
     case["perm"] = perm
-    case["scale"] = rng.choice([2.0, 0.5, 1e-3, 1e3, rng.uniform(0.1, 10.0)])
+    # any positive factor: weights are only defined up to a scale (importance weights, unnormalised posteriors)
+    case["scale"] = rng.choice([2.0, 0.5, 1e-3, 1e3, rng.uniform(0.1, 10.0), 1e-9, 1e-12, 1e9, 10 ** rng.uniform(-14, 8)])
     case.update(over)
     return case
 
